@@ -1,5 +1,100 @@
+import NA.Model.MergeConf
 import NA.Core.IOUtil
-/-! Driver stub for C18 (not built yet): echoes its input. -/
+/-! Driver for C18: one `loadSpoc` case per line on the model.
+
+Input  (TAB separated): `dev  gen  v4  v6  raw`
+  dev  = asa | ios | linux | panos | nsx        gen = old | new
+  file = `-` (absent)  or  `flags/conts/anchors`
+         flags   : letters `r` (raw file), `u` (contains a top-level command the raw parser rejects)
+         conts   : `name:user:lines` joined by `;`   user = 0|1, lines = `id.kind.app.known` joined by `,`
+                   kind = p|d|o|6   app, known = 0|1
+         anchors : `key>acl` joined by `,`
+Output: `err <kind> <n>`  or
+        `ok <TAB> name:id,id,…;… <TAB> key=id,id,…;…  (Cisco: ACL bound by each anchor, sorted by key) <TAB> W:n,n,…` -/
+namespace NA.Drv.C18
+open NA.C18 NA.IOUtil
+
+def splitOnNE (s : String) (sep : String) : List String := if s.isEmpty then [] else s.splitOn sep
+
+def parseKind : String → Option Kind
+  | "p" => some .permit | "d" => some .deny | "o" => some .other | "6" => some .any6 | _ => none
+
+def parseBool : String → Option Bool
+  | "0" => some false | "1" => some true | _ => none
+
+def parseLine (s : String) : Option SrcLine :=
+  match s.splitOn "." with
+  | [i, k, a, kn] => do
+    let id ← i.toNat?
+    let kind ← parseKind k
+    let app ← parseBool a
+    let known ← parseBool kn
+    pure { e := { id, kind, app }, known }
+  | _ => none
+
+def parseCont (s : String) : Option Cont :=
+  match s.splitOn ":" with
+  | [n, u, ls] => do
+    let name ← n.toNat?
+    let user ← parseBool u
+    let lines ← (splitOnNE ls ",").mapM parseLine
+    pure { name, user, lines }
+  | _ => none
+
+def parseAnchor (s : String) : Option Anchor :=
+  match s.splitOn ">" with
+  | [k, a] => do pure { key := ← k.toNat?, acl := ← a.toNat? }
+  | _ => none
+
+def parseFile (s : String) : Option File :=
+  if s == "-" then some {} else
+  match s.splitOn "/" with
+  | [fl, cs, as] => do
+    let conts ← (splitOnNE cs ";").mapM parseCont
+    let anchors ← (splitOnNE as ",").mapM parseAnchor
+    pure { isRaw := fl.contains 'r', unknownTop := fl.contains 'u', conts, anchors }
+  | _ => none
+
+def parseDev : String → Option Dev
+  | "asa" => some .asa | "ios" => some .ios | "linux" => some .linux | "panos" => some .panos
+  | "nsx" => some .nsx | _ => none
+
+def showErr : Err → String
+  | .unknownCmd => "err unknownCmd 0"
+  | .unknownRef n => s!"err unknownRef {n}"
+  | .onlyOnce n => s!"err onlyOnce {n}"
+  | .nameClash n => s!"err nameClash {n}"
+  | .redefChain n => s!"err redefChain {n}"
+  | .panic => "err panic 0"
+
+def ids (l : List Entry) : String := joinComma (l.map (fun e => toString e.id))
+
+def insertSorted (x : Nat × String) : List (Nat × String) → List (Nat × String)
+  | [] => [x]
+  | y :: ys => if x.1 ≤ y.1 then x :: y :: ys else y :: insertSorted x ys
+
+def showResult (r : Result) : String :=
+  let conts := ";".intercalate (r.conf.conts.map (fun c => s!"{c.1}:{ids c.2.2}"))
+  let bound := r.conf.anchors.map (fun k => (k.key, ids (((r.conf.conts.get? k.acl).map (·.2)).getD [])))
+  let bound := bound.foldl (fun acc x => insertSorted x acc) []
+  let bs := ";".intercalate (bound.map (fun x => s!"{x.1}={x.2}"))
+  let ws := r.warn.foldl (fun acc x => insertSorted (x, "") acc) []
+  s!"ok\t{conts}\t{bs}\tW:{joinComma (ws.map (fun x => toString x.1))}"
+
+def answer (line : String) : String :=
+  match line.splitOn "\t" with
+  | [d, g, f4, f6, fr] =>
+    match parseDev d, parseFile f4, parseFile f6, parseFile fr with
+    | some dev, some v4, some v6, some raw =>
+      let gen := if g == "old" then Gen.old else Gen.new
+      match loadSpoc dev gen v4 v6 raw with
+      | .ok r => showResult r
+      | .error e => showErr e
+    | _, _, _, _ => "bad-input"
+  | _ => "bad-input"
+
+end NA.Drv.C18
+
 def main (_ : List String) : IO UInt32 := do
-  NA.IOUtil.eachLine id
+  NA.IOUtil.eachLine NA.Drv.C18.answer
   return 0
